@@ -67,7 +67,7 @@ def mkvalue(v: Dict[str, Any]) -> Any:
   if t == 'tuple':
     return tuple(mkvalue(x) for x in xs)
   if t == 'dict':
-    return {key_name(k): mkvalue(x) for k, x in xs}
+    return {key_name(k): mkvalue(x) for k, x in xs if x['t'] != 'missing'}
   if t == 'obj':
     if not xs:
       return CLASSES[a]()
